@@ -282,37 +282,47 @@ Definition rebase (diff : N) (s : stream_rec) : stream_rec :=
      st_cbytes := st_cbytes s; st_sbytes := st_sbytes s; st_pktstart := st_pktstart s; st_flags := st_flags s; st_hg := st_hg s;
      st_chost := st_chost s; st_shost := st_shost s; st_cport := st_cport s; st_sport := st_sport s |}.
 
+(* the pieces of AddStream, named so that the proofs can speak about them *)
+Definition first_ts (s : istream) : N := match s_packets s with [] => 0 | p0 :: _ => p_ts p0 end.
+Definition last_ts (s : istream) : N := match s_packets s with [] => 0 | p0 :: _ => p_ts (last (s_packets s) p0) end.
+(* writer.go:163-175: the reference second and the re-based stream records *)
+Definition new_ref (w : writer) (sec0 : N) : N :=
+  match w_packets w with
+  | [] => sec0
+  | _ => if sec0 <? w_ref w then sec0 else w_ref w
+  end.
+Definition rebased_streams (w : writer) (sec0 : N) : list stream_rec :=
+  match w_packets w with
+  | [] => w_streams w
+  | _ => if sec0 <? w_ref w then map (rebase ((w_ref w - sec0) * NS)) (w_streams w) else w_streams w
+  end.
+Definition stream_imports (imps : list (bytes * N)) (s : istream) : list (bytes * N) :=
+  fold_left (fun im p => fold_left add_import (p_srcs p) im) (s_packets s) imps.
+Definition stream_block (imps : list (bytes * N)) (s : istream) : list packet_rec :=
+  clear_last_next (fst (set_skips (stream_records imps (first_ts s) (s_data s) 0 (s_packets s)))).
+Definition stream_payload (s : istream) (d : bool) : bytes := payload_of (s_packets s) d (s_data s).
+Definition stream_seg (s : istream) : bytes := segmentation false (data_runs (s_packets s) (s_data s)).
+Definition stream_bytes (s : istream) : bytes := stream_payload s false ++ stream_payload s true ++ stream_seg s.
+
 Definition add_stream (gcap : N) (w : writer) (ids : N * istream) : option writer :=
   let '(id, s) := ids in
   match s_packets s with
   | [] => None                                      (* the code indexes s.Packets[0] *)
-  | p0 :: _ =>
-    let t0 := p_ts p0 in
-    let sec0 := t0 / NS in
-    let tl := p_ts (last (s_packets s) p0) in
-    (* writer.go:163-175 *)
-    let '(ref, olds) :=
-      match w_packets w with
-      | [] => (sec0, w_streams w)
-      | _ => if sec0 <? w_ref w then (sec0, map (rebase ((w_ref w - sec0) * NS)) (w_streams w)) else (w_ref w, w_streams w)
-      end in
+  | _ :: _ =>
+    let ref := new_ref w (first_ts s / NS) in
     match place_hosts gcap (w_groups w) 0 (s_caddr s) (s_saddr s) with
     | None => None
     | Some (groups, gid, ci, si) =>
-      let imps := fold_left (fun im p => fold_left add_import (p_srcs p) im) (s_packets s) (w_imports w) in
-      let recs := clear_last_next (fst (set_skips (stream_records imps t0 (s_data s) 0 (s_packets s)))) in
-      match recs with
+      let imps := stream_imports (w_imports w) s in
+      match stream_block imps s with
       | [] => None                                  (* no packet has a source: the code corrupts the previous stream *)
-      | _ =>
-        let pc := payload_of (s_packets s) false (s_data s) in
-        let psv := payload_of (s_packets s) true (s_data s) in
-        let seg := segmentation false (data_runs (s_packets s) (s_data s)) in
-        let rec := {| st_id := id; st_first := u64 (t0 - ref * NS); st_last := u64 (tl - ref * NS);
-                      st_datastart := lenN (w_data w); st_cbytes := lenN pc; st_sbytes := lenN psv;
+      | recs =>
+        let rec := {| st_id := id; st_first := u64 (first_ts s - ref * NS); st_last := u64 (last_ts s - ref * NS);
+                      st_datastart := lenN (w_data w); st_cbytes := lenN (stream_payload s false); st_sbytes := lenN (stream_payload s true);
                       st_pktstart := u32 (lenN (w_packets w)); st_flags := proto_flags (s_flags s);
                       st_hg := gid; st_chost := ci; st_shost := si; st_cport := s_cport s; st_sport := s_sport s |} in
         Some {| w_ref := ref; w_groups := groups; w_imports := imps; w_packets := w_packets w ++ recs;
-                w_streams := olds ++ [rec]; w_data := w_data w ++ pc ++ psv ++ seg |}
+                w_streams := rebased_streams w (first_ts s / NS) ++ [rec]; w_data := w_data w ++ stream_bytes s |}
       end
     end
   end.
@@ -477,16 +487,16 @@ Definition write_order (f : file) : list bytes :=
 (* position in write order of header section i *)
 Definition header_perm : list nat := [0; 3; 5; 4; 6; 2; 1; 7; 8; 9; 10; 11]%nat.
 
+Definition enc_sec (be : N * N) : bytes := le_enc 8 (fst be) ++ le_enc 8 (snd be).
+Definition dec_sec (bs : bytes) : N * N := let '(b, bs) := fld 8 bs in let '(e, _) := fld 8 bs in (b, e).
+
 Definition encode_file (f : file) : bytes :=
   let '(offs, body) := layout header_size (write_order f) in
-  magic ++ le_enc 8 (f_ref f)
-  ++ concat (map (fun k => let '(b, e) := nth k offs (0, 0) in le_enc 8 b ++ le_enc 8 e) header_perm)
-  ++ body.
+  magic ++ le_enc 8 (f_ref f) ++ enc_list enc_sec (map (fun k => nth k offs (0, 0)) header_perm) ++ body.
 
-Definition header_section (img : bytes) (i : nat) : N * N :=
-  let h := skipn (24 + 16 * i) img in (le_dec (firstn 8 h), le_dec (firstn 8 (skipn 8 h))).
+Definition header_sections (img : bytes) : list (N * N) := dec_list_aux 12 16 dec_sec (skipn 24 img).
 Definition section_bytes (img : bytes) (i : nat) : bytes :=
-  let '(b, e) := header_section img i in sliceN b e img.
+  let '(b, e) := nth i (header_sections img) (0, 0) in sliceN b e img.
 
 Definition decode_file (img : bytes) : option file :=
   if negb (bytes_eqb (firstn 16 img) magic) then None
